@@ -37,7 +37,7 @@ Definition asks (inp : list Z) : list Z :=
 
 (* ---- c03-compile: the model compiler's instruction stream in a canonical integer encoding ----
    output: [0; n; i1 .. in] with every instruction as [opcode; k; a1 .. ak] | [9] undecodable.
-   values: 0 undefined | 7 silent undefined | 1 none | 2 b | 3 z | 4 n c1..cn | 5 n v1..vn | 9 other *)
+   values: 0 undefined | 7 silent undefined | 1 none | 2 b | 3 z | 4 n c1..cn | 5 n v1..vn | 6 n (k v)1..n | 9 other *)
 Fixpoint enc_value (v : value) : list Z :=
   match v with
   | VUndef => [0]
@@ -47,6 +47,7 @@ Fixpoint enc_value (v : value) : list Z :=
   | VInt z => [3; z]
   | VStr _ s => 4 :: lenZ s :: s
   | VList l => 5 :: lenZ l :: flat_map enc_value l
+  | VMap kvs => 6 :: lenZ kvs :: flat_map (fun '(k, x) => enc_value k ++ enc_value x) kvs
   | _ => [9]
   end.
 
@@ -73,6 +74,7 @@ Definition enc_instr (i : instr) : list Z :=
   | IBuildList None => mk 11 []
   | IBuildList (Some n) => mk 11 [nz n]
   | IUnpackList n => mk 12 [nz n]
+  | IBuildMap n => mk 44 [nz n]
   | IBinOp op => mk 13 [binop_code op]
   | INeg => mk 14 []
   | ICompare op => mk 15 [cmpop_code op]
